@@ -27,4 +27,11 @@ CHECKS = {
              "known finding. Model compared op-by-op with the real shared-memory RingBuffer each run.",
         note=COMMON_NOTE + "Pointers are unbounded naturals; shm/mmap trusted; chunk/stride 0 excluded (Go divides by zero).",
     ),
+    "C09": dict(
+        text="Invariant + refinement proof over all request histories (arbitrary indices): the connection list is duplicate-free, in range, "
+             "counter = cardinality (fast path sound), membership equals the set-theoretic specification; Distribute never indexes out of range "
+             "and gives each receiver exactly the multiset union of its sources' primaries (none without incoming connection); the reported "
+             "state is the set used. The real broker is driven through AnySource/LanceroSource entry points and compared after every op.",
+        note=COMMON_NOTE + "Secondary record contents are checked in C01. The defect found (out-of-range source accepted -> Distribute panic) was repaired (fix: 1bd1040).",
+    ),
 }
